@@ -426,8 +426,10 @@ class Scores:
         # Example: We want threshold at 70% TPR. If easy_pos_ratio=60%, then we want
         # the threshold at 25% TPR on the remaining 40% hard positives, since
         # 70% - 60% = 10% is 25% of the remaining 40%
+        at_upper_end = np.asarray(tpr) >= 1.0  # Rescaling must not round 100% down
         tpr = np.maximum(np.asarray(tpr) - self.easy_pos_ratio, 0.0)
         tpr = np.minimum(tpr / self.hard_pos_ratio, 1.0)
+        tpr = np.maximum(tpr, at_upper_end)
         return self._threshold_at_ratio(self.pos, tpr, False, BinaryLabel.pos, method)
 
     def threshold_at_fnr(self, fnr, *, method: str = "linear"):
@@ -462,8 +464,10 @@ class Scores:
         if len(self.neg) == 0:
             raise ValueError("Cannot set threshold at TNR with no negative values.")
         # See explanation in threshold_at_tpr()
+        at_upper_end = np.asarray(tnr) >= 1.0  # Rescaling must not round 100% down
         tnr = np.maximum(np.asarray(tnr) - self.easy_neg_ratio, 0.0)
         tnr = np.minimum(tnr / self.hard_neg_ratio, 1.0)
+        tnr = np.maximum(tnr, at_upper_end)
         return self._threshold_at_ratio(self.neg, tnr, True, BinaryLabel.neg, method)
 
     def threshold_at_fpr(self, fpr, *, method: str = "linear"):
@@ -502,8 +506,10 @@ class Scores:
             raise ValueError("Cannot set threshold at TOPR without any values.")
         # See explanation at threshold_at_tonr()
         easy_pos_to_total_ratio = self.nb_easy_pos / self.nb_all_samples
+        at_upper_end = np.asarray(topr) >= 1.0  # Rescaling must not round 100% down
         topr = np.maximum(np.asarray(topr) - easy_pos_to_total_ratio, 0.0)
         topr = np.minimum(topr / self.hard_ratio, 1.0)
+        topr = np.maximum(topr, at_upper_end)
         return self._threshold_at_ratio(
             concat_scores, topr, False, BinaryLabel.pos, method
         )
@@ -530,8 +536,10 @@ class Scores:
         # threshold at 50% TONR on the 10% of data for which we have scores, since
         # 85% - 80% = 5% is 50% of the 10% data with scores (5% / 10%).
         easy_neg_to_total_ratio = self.nb_easy_neg / self.nb_all_samples
+        at_upper_end = np.asarray(tonr) >= 1.0  # Rescaling must not round 100% down
         tonr = np.maximum(np.asarray(tonr) - easy_neg_to_total_ratio, 0.0)
         tonr = np.minimum(tonr / self.hard_ratio, 1.0)
+        tonr = np.maximum(tonr, at_upper_end)
         return self._threshold_at_ratio(
             concat_scores, tonr, True, BinaryLabel.neg, method
         )
